@@ -316,6 +316,10 @@ def verify_all(ctx, repo, prop):
     dsl.verify(ctx, repo, dsl.Registry(), prop, MAP + ".get_map_ccfs", h_map_ccfs, expect_covers=["ccfs"])
     dsl.verify(ctx, repo, dsl.Registry(), prop, MAP + "._set_max_assignment", h_traceback, expect_covers=TRACE_COVERS)
     dsl.verify(ctx, repo, dsl.Registry(), prop, MAP + ".get_map_clonal_prev", h_clonal_prev, expect_covers=["prev.leaf", "prev.inner"])
+    dsl.verify(ctx, repo, dsl.Registry(), prop, MAP + ".compute_log_D", h_compute_log_D_fold, expect_covers=["fold.step", "fold.after"])
+    dsl.verify(ctx, repo, dsl.Registry(), prop, MAP + ".compute_max_likelihood", h_max_likelihood, expect_covers=["ml.leaf", "ml.inner"])
+    dsl.verify(ctx, repo, dsl.Registry(), prop, [MAP + ".get_map_node_ccfs_and_clonal_prev_dicts", MAP + ".compute_map_tree_features", MAP + ".get_map_node_ccfs_dict", MAP + ".get_map_node_clonal_prevs_dict", MAP + ".set_max_assignment"],
+               h_map_wiring, expect_covers=["map.wiring"])
     ctx.trust("array abstraction (CellArray): the loop bodies touch only the cells named in the frame obligations; np.zeros / np.ones give the initial contents stated in the harness "
               "(choice 0, result -inf, log_S column 0 = log_D column 0)", "witness technique: an arbitrary fixed candidate j* stands for the universal quantifier",
               "compute_log_D (loop over children and samples calling _compute_log_D_n), compute_max_likelihood, _set_max_assignment (traceback), get_map_clonal_prev and the "
@@ -589,3 +593,298 @@ def h_clonal_prev(I, fi):
         v = log["stores"][0][1]
         P.check("prev.on-a-copy", v.is_copy and log["copies"] == 1, "the subtraction runs on a copy: the CCF dictionary is not modified", kind="post")
         P.check("prev.value", alg.is_identically_zero(v.val - want) or P.z(v.val) == P.z(want), "clonal prevalence = CCF of the clone - sum of the CCFs of its children", kind="post")
+
+
+# ----------------------------------------------------------------------------------------------------------- the fold over children and the wiring
+
+
+class Rows(Model):
+    """a (samples x grid) array seen row-wise: row(i) is a token; row stores are recorded"""
+
+    py_classes = ("ndarray",)
+
+    def __init__(self, name, row, log=None):
+        self.name, self.row, self.log = name, row, log
+        self.cells = {}
+
+    def a_shape(self, I):
+        return (alg.sym("D", "Int"), alg.sym("G", "Int"))
+
+    def getitem(self, I, idx):
+        if not (isinstance(idx, tuple) and len(idx) == 2 and isinstance(idx[1], slice) and idx[1] == slice(None, None, None)):
+            raise Unsupported("%s read other than row-wise" % self.name)
+        k = I.to_num(idx[0]).key()
+        return self.cells.get(k, self.row(I.to_num(idx[0])))
+
+    def setitem(self, I, idx, v):
+        if not (isinstance(idx, tuple) and len(idx) == 2 and isinstance(idx[1], slice)):
+            raise Unsupported("%s written other than row-wise" % self.name)
+        self.cells[I.to_num(idx[0]).key()] = v
+        if self.log is not None:
+            self.log.append(("row-store", self.name, I.to_num(idx[0]), v))
+
+
+def h_compute_log_D_fold(I, fi):
+    """map.compute_log_D: log_D starts at zeros (shape of the first child); for every child in order and every sample i, row i of log_D becomes
+    the max-plus convolution of (child row i, previous row i) and the choices of that call are recorded for that child at position i;
+    the list of per-child choice arrays (in child order) and the final log_D are returned."""
+    P = I.P
+    n = alg.sym("n_children", "Int")
+    P.assume(P.z(n) >= 1)
+    log, calls, zeros = [], [], []
+
+    def child(c):
+        return Rows("child[%s]" % I.to_num(c).key(), lambda i, c=c: ("child-row", I.to_num(c).key(), i.key()))
+
+    kids = {}
+
+    def kid(c):
+        return kids.setdefault(I.to_num(c).key(), child(c))
+
+    children = SymSeq("child_log_R_values", n, kid)
+
+    class NP(Model):
+        def m_zeros(self, I_, shape):
+            zeros.append(shape)
+            return Rows("log_D", lambda i: ("zeros-row",), log)
+
+        def m_array(self, I_, x):
+            return ("array", list(x) if isinstance(x, list) else x)
+
+    I.registry.globals_override["np"] = NP()
+
+    def mc(I_, a, k, nd):
+        calls.append((a[0], a[1]))
+        t = len(calls)
+        return (("choice", t), ("result", t))
+
+    I.registry.call_contracts[MAP + "._compute_log_D_n"] = mc
+    I.registry.generic_loops.add(fi.qualname)
+    st = {}
+
+    def outer(I_, node, fr):
+        seq = I_.eval(node.iter, fr)
+        P.check("fold.over-the-children-in-order", seq is children, "the fold runs over the children as given", kind="post")
+        ld = fr.vars.get("log_D")
+        ok0 = isinstance(ld, Rows) and ld.name == "log_D" and not ld.cells and len(zeros) == 1 and fr.vars.get("log_D_choice") == []
+        P.check("fold.starts-from-zeros", ok0, "log_D starts as zeros and no choice is recorded yet", kind="post")
+        if not ok0:
+            raise PathEnd()
+        mode = P.decide(2)
+        if mode == 1:
+            st["after"] = True
+            fr.vars["log_D_choice"] = ("choices-of-all-children",)
+            return
+        c = children.fresh_index(I_, "c")
+        prev = Rows("log_D", lambda i: ("state-row", i.key()), log)  # arbitrary state after the children before c
+        fr.vars["log_D"] = prev
+        choice_list = []
+        fr.vars["log_D_choice"] = choice_list
+        I_.assign_target(node.target, children.at(I_, c), fr)
+        n_calls = len(calls)
+        I_.exec_block(node.body, fr)
+        dsl.cover(I_, "fold.step")
+        gens = P.ghost.get("generic_indices", [])
+        if len(calls) == n_calls:
+            P.check("fold.no-sample", not P.feasible(P.z(alg.sym("D", "Int")) > 0), "no sample: nothing to convolve", kind="post")
+            raise PathEnd()
+        i = gens[-1]
+        a, b = calls[-1]
+        P.check("fold.convolves-child-row-with-the-running-row", a == ("child-row", c.key(), i.key()) and b == ("state-row", i.key()),
+                "for sample i the call is max-plus(child c's row i, the running log_D row i)", kind="post")
+        rs = [e for e in log if e[0] == "row-store"]
+        P.check("fold.row-updated", len(rs) == 1 and rs[0][1] == "log_D" and (rs[0][2] - i).is_zero() and rs[0][3] == ("result", len(calls)) and fr.vars.get("log_D") is prev,
+                "row i of log_D (and only that row) becomes the result of that call, in place", kind="post")
+        P.check("fold.choices-recorded-per-child", choice_list == [("array", [("choice", len(calls))])], "the choices of the calls for child c are collected, in sample order, into one array appended for child c", kind="post")
+        raise PathEnd()
+
+    I.registry.loop_invariants[(fi.qualname, 0)] = outer
+    out = I.call_function(fi, [children], {}, force_inline=True)
+    if st.get("after"):
+        dsl.cover(I, "fold.after")
+        P.check("fold.returns-choices-and-log_D", isinstance(out, tuple) and len(out) == 2 and out[0] == ("choices-of-all-children",) and isinstance(out[1], Rows) and out[1].name == "log_D",
+                "the per-child choice arrays and the final log_D are returned", kind="post")
+        sh = zeros[0] if zeros else None
+        P.check("fold.shape-of-the-first-child", sh is not None, "log_D has the shape of the first child", kind="post")
+
+
+def h_max_likelihood(I, fi):
+    """compute_max_likelihood at one node: children first (post-order); a leaf has log_S_max = 0 and log_R_max = log_p; an inner node gets
+    (log_D_choice, log_S_choice, log_S_max) = compute_log_S(children's log_R_max, in child order) and log_R_max = log_p + log_S_max."""
+    P = I.P
+    n = alg.sym("n_children", "Int")
+    leaf = P.decide(2) == 1
+    P.assume(P.z(n) == 0 if leaf else P.z(n) >= 1)
+    dsl.cover(I, "ml.leaf" if leaf else "ml.inner")
+    nid = alg.sym("node", "Int")
+    log = []
+
+    class Arr(Model):
+        py_classes = ("ndarray",)
+
+        def __init__(self, what):
+            self.what = what
+
+        def a_shape(self, I_):
+            return ("shape-of", self.what)
+
+        def binop(self, I_, op, other, swapped):
+            return Arr(("sum", self.what, getattr(other, "what", other)))
+
+    class Attrs(Model):
+        def __init__(self, nd):
+            self.nd, self.stores = nd, {}
+
+        def getitem(self, I_, key):
+            if key in self.stores:
+                return self.stores[key]
+            log.append(("read", self.nd.key(), key, len([e for e in log if e[0] == "rec"])))
+            return Arr((key, self.nd.key()))
+
+        def setitem(self, I_, key, v):
+            self.stores[key] = v
+            log.append(("store", self.nd.key(), key, v))
+
+    attrs = {}
+
+    class Nodes(Model):
+        def getitem(self, I_, nd):
+            k = I_.to_num(nd).key()
+            return attrs.setdefault(k, Attrs(I_.to_num(nd)))
+
+    class G(Model):
+        def a_nodes(self, I_):
+            return Nodes()
+
+        def m_successors(self, I_, nd):
+            return SymSeq("children", n, lambda i: alg.raw_app("child", I_.to_num(nd), I_.to_num(i), sort="Int"))
+
+    class NP(Model):
+        def m_zeros(self, I_, shape):
+            return Arr(("zeros", shape))
+
+    I.registry.globals_override["np"] = NP()
+    I.registry.call_contracts[fi.qualname] = lambda I_, a, k, nd: log.append(("rec", I_.to_num(a[1])))
+    S = []
+    I.registry.call_contracts[MAP + ".compute_log_S"] = lambda I_, a, k, nd: (S.append(a[0]), (("D-choice",), ("S-choice",), Arr(("S-max",))))[1]
+    I.registry.generic_loops.add(fi.qualname)
+    g = G()
+    I.call_function(fi, [g, nid], {}, force_inline=True)
+    own = attrs.get(nid.key())
+    st = own.stores if own else {}
+    if leaf:
+        ok = isinstance(st.get("log_S_max"), Arr) and st["log_S_max"].what == ("zeros", ("shape-of", ("log_p", nid.key()))) and isinstance(st.get("log_R_max"), Arr) and st["log_R_max"].what == ("log_p", nid.key()) and not S
+        P.check("ml.leaf", ok and set(st) == {"log_S_max", "log_R_max"}, "a leaf: log_S_max = 0 (shape of log_p), log_R_max = log_p", kind="post")
+        return
+    gens = P.ghost.get("generic_indices", [])
+    recs = [e for e in log if e[0] == "rec"]
+    P.check("ml.children-first", len(recs) == 1 and len(gens) == 1 and (recs[0][1] - alg.raw_app("child", nid, gens[0], sort="Int")).is_zero(), "every child is processed (recursively) before the node", kind="post")
+    reads = [e for e in log if e[0] == "read" and e[2] == "log_R_max"]
+    P.check("ml.reads-children-after-their-update", all(e[3] == 1 for e in reads) and len(S) == 1 and isinstance(S[0], SymSeq) and not P.feasible(P.z(S[0].core_len) != P.z(n)),
+            "compute_log_S gets one log_R_max per child, in child order, read after the children were processed", kind="post")
+    if len(S) == 1 and isinstance(S[0], SymSeq):
+        j = alg.sym("j", "Int")
+        P.assume(z3.And(P.z(j) >= 0, P.z(j) < P.z(n)))
+        e = S[0].core_at(I, j)
+        P.check("ml.child-values", isinstance(e, Arr) and e.what == ("log_R_max", alg.raw_app("child", nid, j, sort="Int").key()), "the j-th value is log_R_max of the j-th child", kind="post")
+    ok = st.get("log_D_choice") == ("D-choice",) and st.get("log_S_choice") == ("S-choice",) and isinstance(st.get("log_S_max"), Arr) and st["log_S_max"].what == ("S-max",) \
+        and isinstance(st.get("log_R_max"), Arr) and st["log_R_max"].what == ("sum", ("log_p", nid.key()), ("S-max",))
+    P.check("ml.inner", ok, "the three results of compute_log_S are stored under log_D_choice / log_S_choice / log_S_max and log_R_max = log_p + log_S_max", kind="post")
+
+
+def h_map_wiring(I, top_fi, feat_fi, ccfs_fi, prevs_fi, setmax_fi):
+    """get_map_node_ccfs_and_clonal_prev_dicts and its helpers: graph copy -> networkx -> maximise -> traceback from the root fixed at the last grid
+    index -> CCFs -> prevalences; the dummy root is removed from both results."""
+    P = I.P
+    log = []
+
+    class T(Model):
+        py_classes = ("Tree",)
+
+        def a_root_node_name(self, I_):
+            return "root"
+
+        def a__graph(self, I_):
+            return RG()
+
+    class RG(Model):
+        def m_copy(self, I_):
+            log.append(("copy",))
+            return ("graph-copy",)
+
+    D, G = alg.sym("D", "Int"), alg.sym("G", "Int")
+    P.assume(z3.And(P.z(D) >= 1, P.z(G) >= 2))
+
+    class Shape(Model):
+        def a_shape(self, I_):
+            return (D, G)
+
+    class NodeAttr(Model):
+        def __init__(self):
+            self.stores = {}
+
+        def getitem(self, I_, key):
+            if key == "log_R":
+                return Shape()
+            raise Unsupported("attribute %r" % (key,))
+
+        def setitem(self, I_, key, v):
+            self.stores[key] = v
+
+    root_attr = NodeAttr()
+
+    class NX(Model):
+        def a_nodes(self, I_):
+            return {"root": root_attr}
+
+    nxg = NX()
+    I.registry.call_contracts["phyclone.process_trace.utils.convert_rustworkx_to_networkx"] = lambda I_, a, k, n: (log.append(("convert", a[0])), nxg)[1]
+    I.registry.call_contracts[MAP + ".convert_rustworkx_to_networkx"] = I.registry.call_contracts["phyclone.process_trace.utils.convert_rustworkx_to_networkx"]
+    I.registry.call_contracts[MAP + ".compute_max_likelihood"] = lambda I_, a, k, n: log.append(("maximise", a[0], a[1]))
+    I.registry.call_contracts[MAP + "._set_max_assignment"] = lambda I_, a, k, n: log.append(("traceback", a[0], a[1], a[2]))
+
+    class Ones(Model):
+        def __init__(self, n, kw):
+            self.n, self.kw, self.f = n, kw, Num.const(1)
+
+        def binop(self, I_, op, other, swapped):
+            if not isinstance(op, ast.Mult):
+                raise Unsupported("operation on ones()")
+            o = Ones(self.n, self.kw)
+            o.f = self.f * I_.to_num(other)
+            return o
+
+    class NP(Model):
+        def m_ones(self, I_, n_, dtype=None):
+            return Ones(n_, dtype)
+
+    I.registry.globals_override["np"] = NP()
+    res = {}
+
+    def ccfs(I_, a, k, n):
+        log.append(("ccfs", a[0], a[1], a[2]))
+        a[2]["root"] = ("ccf-root",)
+        a[2][7] = ("ccf-7",)
+
+    def prevs(I_, a, k, n):
+        log.append(("prevs", a[0], a[1], a[2], a[3]))
+        a[3]["root"] = ("prev-root",)
+        a[3][7] = ("prev-7",)
+
+    I.registry.call_contracts[MAP + ".get_map_ccfs"] = ccfs
+    I.registry.call_contracts[MAP + ".get_map_clonal_prev"] = prevs
+    out = I.call_function(top_fi, [T()], {}, force_inline=True)
+    dsl.cover(I, "map.wiring")
+    kinds = [e[0] for e in log]
+    P.check("map.order-of-stages", kinds == ["copy", "convert", "maximise", "traceback", "ccfs", "prevs"], "copy of the tree's graph -> networkx -> maximise -> traceback -> CCFs -> prevalences, each once", kind="post")
+    if kinds != ["copy", "convert", "maximise", "traceback", "ccfs", "prevs"]:
+        return
+    P.check("map.works-on-a-copy", log[1][1] == ("graph-copy",), "the MAP computation runs on a copy of the tree's graph", kind="post")
+    P.check("map.from-the-root", log[2][1] is nxg and log[2][2] == "root" and log[3][1] is nxg and log[3][3] == "root" and log[4][1] is nxg and log[4][2] == "root" and log[5][1] is nxg and log[5][2] == "root",
+            "every stage starts at the dummy root of the same graph", kind="post")
+    idxs = log[3][2]
+    okr = isinstance(idxs, Ones) and (I.to_num(idxs.n) - D).is_zero() and (idxs.f - (G - 1)).is_zero() and isinstance(root_attr.stores.get("max_idx"), Ones) and (root_attr.stores["max_idx"].f - (G - 1)).is_zero()
+    P.check("map.root-fixed-at-ccf-one", okr, "the root's index is G - 1 in every sample (CCF one), both as stored on the root and as handed to the traceback", kind="post")
+    P.check("map.prevalences-from-these-ccfs", isinstance(log[5][3], dict) and log[5][3] is log[4][3], "the prevalences are computed from the CCF dictionary just built", kind="post")
+    ok = isinstance(out, tuple) and len(out) == 2 and out[0] == {7: ("ccf-7",)} and out[1] == {7: ("prev-7",)}
+    P.check("map.root-dropped", ok, "the dummy root is removed from both dictionaries; the clones' entries are returned", kind="post")
